@@ -5,7 +5,7 @@
    failure, write failure, Stop) at any point, any interleaving of the goroutines. *)
 From Coq Require Import List ZArith Bool.
 Import ListNotations.
-From Goat Require Import Model.Client Model.Server Proofs.ServerProofs Proofs.ServerInv Proofs.ServerLive Proofs.ServerTrace.
+From Goat Require Import Model.Client Model.Server Proofs.ServerProofs Proofs.ServerInv Proofs.ServerLive Proofs.ServerTrace Proofs.ServerTerm.
 Open Scope Z_scope.
 
 (* Serve returns (Q) after Stop or a failed transport write: both end the connection context. In every reachable
@@ -59,6 +59,20 @@ Theorem C10_no_leak : forall ls s, lrun init ls = Some s ->
   /\ (forall h k, nth_error (hs s) h = Some k -> h_pc k = HDead).
 Proof. intros ls s H. apply (srv_no_leak nworkers). exact (inv_reach nworkers ls s H). Qed.
 Print Assumptions C10_no_leak.
+
+(* (T) no live-lock: [measure] (12 per unread envelope + a weight per goroutine state) strictly decreases with every
+   internal step from a reachable state, so every sequence of internal steps from a reachable state is at most
+   [measure s] long: once the environment (peer, handlers, faults) stops acting, the connection reaches a quiescent
+   state - to which the (Q) theorems above apply *)
+Theorem C10_measure : forall ls s i s', lrun init ls = Some s -> rule_of i s = Some s' ->
+  (measure s' < measure s)%nat.
+Proof. exact (srv_measure nworkers). Qed.
+Print Assumptions C10_measure.
+
+Theorem C10_terminates : forall ls s, lrun init ls = Some s ->
+  forall ls' s', all_internal ls' = true -> lrun s ls' = Some s' -> (length ls' + measure s' <= measure s)%nat.
+Proof. exact (srv_internal_runs_bounded nworkers). Qed.
+Print Assumptions C10_terminates.
 
 (* non-vacuity: two unary and two stream handlers in flight (one parked in RecvMsg, one on its context), then Stop;
    the handlers return; everything is dead *)
